@@ -54,3 +54,21 @@ Definition loglik_nuc (m : tipmode) (taxa : list nat) (seqs : list (nat * list n
   loglik N 4%nat freqs (map table mats) props (index_tree (rename taxa t))
          (nuc_patterns m (rows_in_taxa_order taxa seqs)).
 End Assemble.
+
+(* amino-acid alignments (20 states): same assembly over the amino-acid tables *)
+Section AssembleAA.
+Context {T : Type} (N : Num T).
+Definition aa_tip_vector (m : tipmode) (c : nat) : list T :=
+  match m with
+  | TipPartials ua => vec_of_nats N (aa_partial ua c)
+  | TipStates => let s := aa_tip_state c in
+                 if (s <? 20)%nat then vec_of_nats N (indicator_of 20 [s]) else vec_of_nats N (repeat 1%nat 20)
+  end.
+Definition aa_patterns (m : tipmode) (rows : list (list nat)) : list (T * (nat -> list T)) :=
+  map (fun cw => (ofNat N (snd cw), fun i => aa_tip_vector m (lk (fst cw) i 0%nat)))
+      (compress list_eqb (columns rows)).
+Definition loglik_aa (m : tipmode) (taxa : list nat) (seqs : list (nat * list nat)) (t : tree)
+           (freqs : list T) (mats : list (list (list (list T)))) (props : list T) : T :=
+  loglik N 20%nat freqs (map table mats) props (index_tree (rename taxa t))
+         (aa_patterns m (rows_in_taxa_order taxa seqs)).
+End AssembleAA.
